@@ -81,7 +81,10 @@ def run_nfkc(ctx):
             must_reject(ctx, "build_authority", {"route": "build_authority", "cp": cp, "host": h}, guarded(lambda: URL.build(scheme="http", authority=h)))
             must_reject(ctx, "with_host", {"route": "with_host", "cp": cp, "host": h}, guarded(base.with_host, h))
         for a in (f"u{c}v@h.com", f"u:p{c}@h.com", f"{c}@h.com:81", f"u{c}v@[::1]", f"u:p{c}@[2001:db8::1]:8080", f"[::1]{c}evil.example", f"trusted.example{c}[::1]",
-                  f"[fe80::1%eth{c}0]", f"x{c}y@[v1.a]", f"[::1]:8{c}0"):
+                  f"[fe80::1%eth{c}0]", f"x{c}y@[v1.a]", f"[::1]:8{c}0",
+                  # a HARMLESS non-ASCII piece (NFKC-stable or not) in another part of the same authority, before and after the hostile one
+                  f"\u00fc@ex{c}evil.com", f"m\u00fcller:pw@ex{c}evil.com", f"u:\u00e9@{c}.com:81", f"ex{c}evil.com:8\u0660", f"\uff55@a{c}b", f"\u00fc:\u00e9@[::1]{c}x", f"a{c}b@b\u00fccher.example",
+                  f"\u00e9.com{c}@h"):
             must_reject(ctx, "ctor_userinfo", {"route": "ctor_userinfo", "cp": cp, "authority": a}, guarded(URL, f"http://{a}/"))
             must_reject(ctx, "build_authority_userinfo", {"route": "build_authority_userinfo", "cp": cp, "authority": a},
                         guarded(lambda: URL.build(scheme="http", authority=a)))
